@@ -51,7 +51,7 @@ ASSUMPTIONS = [
     "version 1, QLPC, ZERO, BLOCKSIZE and BITSHIFT semantics come from the shorten format description",
     "command alphabet (14): DIFF0-3 minimal width, DIFF1 width 0, DIFF1 width 5, QLPC order 1/2/3 with "
     "coefficients [31], [31,-8], [11,31,-8], ZERO, BLOCKSIZE->1/3, BITSHIFT->0/2; block commands act "
-    "on the current channel; BLOCKSIZE/BITSHIFT only at frame boundaries; QUIT closes every trace",
+    "on the current channel; BLOCKSIZE only at frame boundaries, BITSHIFT before any block (also between the channels of a frame); QUIT closes every trace",
     "sample values: a fixed generic sequence per channel (|x| < ~2500, function of VERIF_SEED and "
     "index) with planted extremes 32767, -32768, -32767, runs of zeros (mu-law: 0x80, 0x00, -0, +0), "
     "floored to multiples of 2**bitshift / moved to a representable code where the format requires it",
@@ -145,7 +145,7 @@ def enabled(enc, op):
     if op[0] == "BLOCKSIZE":
         return enc.chan == 0 and op[1] <= enc.bs0
     if op[0] == "BITSHIFT":
-        return enc.chan == 0
+        return True   # per block: also between the channels of one frame
     return True
 
 
